@@ -13,3 +13,16 @@ package conf
 //@ func conf.Config.Check
 //@   property C04 C09 C17
 //@   case map-range: the loops only validate; the order can change which error is reported, never a successful result
+
+// Overload resolution (C17): the first function in list order whose two parameter types fit (l, r).
+//@ func conf.FindSuitableOperatorOverload returns t name ok
+//@   property C17
+//@   mode panics
+//@   define a1(k) := In(types[fns[k]].Type, ite(types[fns[k]].Method, 1, 0))
+//@   define a2(k) := In(types[fns[k]].Type, ite(types[fns[k]].Method, 1, 0) + 1)
+//@   define fit(k) := (l == a1(k) || (kind(a1(k)) == 20 && (l == nil || impl(l, a1(k))))) && (r == a2(k) || (kind(a2(k)) == 20 && (r == nil || impl(r, a2(k)))))
+//@   ensures[found-fits] ok ==> exists(j, 0, len(fns), name == fns[j] && fit(j) && t == Out(types[fns[j]].Type, 0) && forall(k, 0, j, !fit(k)))
+//@   ensures[none-fits] !ok ==> forall(k, 0, len(fns), !fit(k))
+//@   loop 0 modifies fresh
+//@   loop 0 invariant[none-so-far] forall(k, 0, rangeindex+1, !fit(k))
+//@   loop 0 invariant[bounds] rangeindex >= -1 && rangeindex < len(fns)
